@@ -71,8 +71,13 @@ theorem member_ops_pinned (m : Mode) (acc ml : Layout) :
       | ok z' => rfl
 
 theorem final_ops_pinned (m : Mode) (l : Layout) :
-    runLay (structFinalOps m) ⟨l, 0, l, 0⟩ = .ok l := by
-  cases m <;> rfl
+    runLay (structFinalOps m) ⟨l, 0, l, 0⟩ =
+      match nextMultipleOf l.size l.align with
+      | .ok z => .ok ⟨z, l.align⟩
+      | .error e => .error e := by
+  cases m <;>
+  · simp only [structFinalOps, runLay, runOps, step]
+    cases nextMultipleOf l.size l.align <;> rfl
 
 theorem array_ops_pinned (m : Mode) (l : Layout) (n : Nat) :
     runLay (arrayOps m) ⟨l, 0, l, n⟩ =
@@ -159,11 +164,6 @@ theorem alignMax_pos (m : Mode) : ∀ ts : Tys, 0 < alignMax m ts
     omega
 end
 
-/-- unrounded size: where the last member ends for a struct, the size otherwise -/
-def rawSize (m : Mode) : Ty → Nat
-  | .struct ms => endOf m ms 0
-  | t => size m t
-
 theorem size_mod_align (m : Mode) : ∀ t : Ty, wf t = true → size m t % align m t = 0
   | .scalar s, _ => by simp [size, align]
   | .vec s n, _ => by
@@ -175,105 +175,12 @@ theorem size_mod_align (m : Mode) : ∀ t : Ty, wf t = true → size m t % align
   | .enum u, _ => by simp [size, align]
   | .other _, h => by simp [wf] at h
 
-theorem size_eq_raw_of_closed (m : Mode) : ∀ t : Ty, closed m t = true → size m t = rawSize m t
-  | .scalar _, _ => rfl
-  | .vec _ _, _ => rfl
-  | .arr _ _, _ => rfl
-  | .enum _, _ => rfl
-  | .other _, _ => rfl
-  | .struct ms, h => by
-    simp only [closed, Bool.and_eq_true, beq_iff_eq] at h
-    simp only [size, rawSize]
-    exact roundUp_of_mod_zero (alignMax_pos m ms) h.1
 
 theorem mulU32_ok {a b c : Nat} (h : mulU32 a b = .ok c) : c = a * b := by
   unfold mulU32 at h; split at h
   · cases h; rfl
   · cases h
 
-mutual
-/-- `get` computes the reference alignment and the reference *unrounded* size whenever no struct strictly
-    below `t` needs tail padding -/
-theorem get_spec (m : Mode) : ∀ (t : Ty) (l : Layout), wf t = true → noInnerTailPad m t = true →
-    get m t = .ok l → l.align = align m t ∧ l.size = rawSize m t
-  | .scalar s, l, hw, _, h => by
-    simp only [wf] at hw
-    rw [get_scalar m s hw] at h; cases h; exact ⟨rfl, rfl⟩
-  | .vec s n, l, hw, _, h => by
-    simp only [wf, Bool.and_eq_true, decide_eq_true_eq] at hw
-    rw [get_vec m s n hw.1 hw.2] at h; cases h; exact ⟨rfl, rfl⟩
-  | .enum u, l, hw, _, h => by
-    simp only [wf] at hw
-    rw [get_enum m u hw] at h; cases h; exact ⟨rfl, rfl⟩
-  | .other _, _, hw, _, _ => by simp [wf] at hw
-  | .arr t n, l, hw, hc, h => by
-    simp only [wf, Bool.and_eq_true, decide_eq_true_eq] at hw; replace hw := hw.2
-    simp only [noInnerTailPad] at hc
-    simp only [Model.Layout.get] at h
-    split at h
-    · cases h
-    · rename_i l' hl'
-      have hin : noInnerTailPad m t = true := by
-        cases t <;> simp_all [noInnerTailPad, closed]
-      obtain ⟨ha, hs⟩ := get_spec m t l' hw hin hl'
-      rw [array_ops_pinned] at h
-      split at h
-      · split at h
-        · rename_i z hz
-          cases h
-          have := mulU32_ok hz
-          refine ⟨ha, ?_⟩
-          simp only [rawSize, size]
-          rw [← size_eq_raw_of_closed m t hc] at hs
-          have hmod := size_mod_align m t hw
-          rw [roundUp_of_mod_zero (align_pos m t hw) hmod, this, hs, Nat.mul_comm]
-        · cases h
-      · cases h
-  | .struct ms, l, hw, hc, h => by
-    simp only [wf, Bool.and_eq_true] at hw
-    simp only [noInnerTailPad] at hc
-    simp only [Model.Layout.get] at h
-    split at h
-    · cases h
-    · rename_i l' hl'
-      rw [final_ops_pinned] at h
-      cases h
-      obtain ⟨hs, ha⟩ := getMembers_spec m ms ⟨structInit.1, structInit.2⟩ l hw.2 hc (by decide) hl'
-      simp only [rawSize, align]
-      refine ⟨?_, hs⟩
-      rw [ha]
-      have := alignMax_pos m ms
-      show max 1 (alignMax m ms) = alignMax m ms
-      omega
-theorem getMembers_spec (m : Mode) : ∀ (ts : Tys) (acc l : Layout), wfAll ts = true →
-    closedAll m ts = true → 1 ≤ acc.align → getMembers m ts acc = .ok l →
-    l.size = endOf m ts acc.size ∧ l.align = max acc.align (alignMax m ts)
-  | .nil, acc, l, _, _, hacc, h => by
-    simp only [getMembers] at h; cases h
-    refine ⟨by simp [endOf], ?_⟩
-    simp only [alignMax]; omega
-  | .cons t ts, acc, l, hw, hc, hacc, h => by
-    simp only [wfAll, Bool.and_eq_true] at hw
-    simp only [closedAll, Bool.and_eq_true] at hc
-    simp only [getMembers] at h
-    split at h
-    · cases h
-    · rename_i ml hml
-      have hin : noInnerTailPad m t = true := by
-        cases t <;> simp_all [noInnerTailPad, closed]
-      obtain ⟨ha, hs⟩ := get_spec m t ml hw.1 hin hml
-      rw [← size_eq_raw_of_closed m t hc.1] at hs
-      rw [member_ops_pinned] at h
-      split at h
-      · cases h
-      · rename_i acc' hacc'
-        have hpos : 0 < ml.align := by rw [ha]; exact align_pos m t hw.1
-        obtain ⟨e1, e2⟩ := memberStep_ok hpos hacc'
-        obtain ⟨r1, r2⟩ := getMembers_spec m ts acc' l hw.2 hc.2 (by rw [e2]; omega) h
-        simp only [endOf, alignMax]
-        rw [r1, r2, e1, e2, ha, hs]
-        exact ⟨rfl, by omega⟩
-end
 
 mutual
 /-- a layout is never smaller than its scalar data -/
@@ -307,114 +214,6 @@ theorem leafAll_le_endOf (m : Mode) : ∀ (ts : Tys) (c : Nat), wfAll ts = true 
     have h3 := leafAll_le_endOf m ts (roundUp c (align m t) + size m t) h.2
     omega
 end
-
-mutual
-/-- two padding-free layouts of the same type place every field at the same offset -/
-theorem dense_agree : ∀ t : Ty, wf t = true → size .hlsl t = leaf t → size .metal t = leaf t →
-    agreeIn t = true
-  | .scalar _, _, _, _ => rfl
-  | .enum _, _, _, _ => rfl
-  | .other _, _, _, _ => rfl
-  | .vec _ _, _, _, _ => rfl
-  | .arr t n, hw, hh, hm => by
-    simp only [wf, Bool.and_eq_true, decide_eq_true_eq] at hw; replace hw := hw.2
-    simp only [size, leaf] at hh hm
-    simp only [agreeIn, Bool.or_eq_true, Bool.and_eq_true, beq_iff_eq, decide_eq_true_eq]
-    by_cases hn : n = 0
-    · exact Or.inl hn
-    · right
-      have hpos : 0 < n := by omega
-      have eh := Nat.eq_of_mul_eq_mul_left hpos hh
-      have em := Nat.eq_of_mul_eq_mul_left hpos hm
-      have lh := leaf_le_size .hlsl t hw
-      have lm := leaf_le_size .metal t hw
-      have rh := @le_roundUp (size .hlsl t) (align .hlsl t) (align_pos _ t hw)
-      have rm := @le_roundUp (size .metal t) (align .metal t) (align_pos _ t hw)
-      refine ⟨Or.inr ?_, dense_agree t hw (by omega) (by omega)⟩
-      simp only [stride]; omega
-  | .struct ms, hw, hh, hm => by
-    simp only [wf, Bool.and_eq_true] at hw
-    simp only [size, leaf] at hh hm
-    have lh := leafAll_le_endOf .hlsl ms 0 hw.2
-    have lm := leafAll_le_endOf .metal ms 0 hw.2
-    have rh := @le_roundUp (endOf .hlsl ms 0) (alignMax .hlsl ms) (alignMax_pos _ ms)
-    have rm := @le_roundUp (endOf .metal ms 0) (alignMax .metal ms) (alignMax_pos _ ms)
-    obtain ⟨h1, h2⟩ := denseAll_agree ms 0 hw.2 (by omega) (by omega)
-    simp only [agreeIn, Bool.and_eq_true, beq_iff_eq]
-    exact ⟨h1, h2⟩
-theorem denseAll_agree : ∀ (ts : Tys) (c : Nat), wfAll ts = true →
-    endOf .hlsl ts c = c + leafAll ts → endOf .metal ts c = c + leafAll ts →
-    offsets .hlsl ts c = offsets .metal ts c ∧ agreeInAll ts = true
-  | .nil, _, _, _, _ => by simp [offsets, agreeInAll]
-  | .cons t ts, c, hw, hh, hm => by
-    simp only [wfAll, Bool.and_eq_true] at hw
-    simp only [endOf, leafAll] at hh hm
-    have sh := leaf_le_size .hlsl t hw.1
-    have sm := leaf_le_size .metal t hw.1
-    have rh := @le_roundUp c (align .hlsl t) (align_pos _ t hw.1)
-    have rm := @le_roundUp c (align .metal t) (align_pos _ t hw.1)
-    have eh := leafAll_le_endOf .hlsl ts (roundUp c (align .hlsl t) + size .hlsl t) hw.2
-    have em := leafAll_le_endOf .metal ts (roundUp c (align .metal t) + size .metal t) hw.2
-    have a1 : roundUp c (align .hlsl t) = c := by omega
-    have a2 : roundUp c (align .metal t) = c := by omega
-    have b1 : size .hlsl t = leaf t := by omega
-    have b2 : size .metal t = leaf t := by omega
-    rw [a1, b1] at hh
-    rw [a2, b2] at hm
-    obtain ⟨o, g⟩ := denseAll_agree ts (c + leaf t) hw.2 (by omega) (by omega)
-    simp only [offsets, agreeInAll, Bool.and_eq_true]
-    rw [a1, a2, b1, b2]
-    exact ⟨by rw [o], dense_agree t hw.1 b1 b2, g⟩
-end
-
-theorem roundUp_raw (m : Mode) (t : Ty) (hw : wf t = true) :
-    roundUp (rawSize m t) (align m t) = size m t := by
-  cases t with
-  | struct ms => rfl
-  | _ => exact roundUp_of_mod_zero (align_pos m _ hw) (size_mod_align m _ hw)
-
-/-- what `checkOne` computes when it does not fail -/
-theorem checkOne_ok {t : Ty} {r : Option (Layout × Layout)} (h : checkOne t = .ok r) :
-    ∃ lh lm zh zm, get .hlsl t = .ok lh ∧ get .metal t = .ok lm ∧
-      nextMultipleOf lh.size lh.align = .ok zh ∧ nextMultipleOf lm.size lm.align = .ok zm ∧
-      r = if zh ≠ zm then some (⟨zh, lh.align⟩, ⟨zm, lm.align⟩) else none := by
-  unfold checkOne at h
-  split at h
-  · cases h
-  · rename_i lh hlh
-    split at h
-    · cases h
-    · rename_i lm hlm
-      rw [top_ops_pinned, top_ops_pinned] at h
-      cases hzh : nextMultipleOf lh.size lh.align with
-      | error e => rw [hzh] at h; cases h
-      | ok zh =>
-        cases hzm : nextMultipleOf lm.size lm.align with
-        | error e => rw [hzh, hzm] at h; cases h
-        | ok zm =>
-          rw [hzh, hzm] at h
-          refine ⟨lh, lm, zh, zm, hlh, hlm, hzh, hzm, ?_⟩
-          simp only [differs, checkCompare, bne_iff_ne] at h
-          by_cases hne : zh = zm
-          · simp only [hne, ne_eq, not_true_eq_false, if_false] at h ⊢; cases h; rfl
-          · simp only [hne, ne_eq, not_false_eq_true, if_true] at h ⊢; cases h; rfl
-
-/-- on types without inner tail padding the model compares the two *reference* sizes and reports them -/
-theorem checkOne_spec {t : Ty} {r : Option (Layout × Layout)} (hw : wf t = true)
-    (hh : noInnerTailPad .hlsl t = true) (hm : noInnerTailPad .metal t = true)
-    (h : checkOne t = .ok r) :
-    r = if size .hlsl t ≠ size .metal t then
-          some (⟨size .hlsl t, align .hlsl t⟩, ⟨size .metal t, align .metal t⟩) else none := by
-  obtain ⟨lh, lm, zh, zm, g1, g2, n1, n2, rfl⟩ := checkOne_ok h
-  obtain ⟨a1, s1⟩ := get_spec .hlsl t lh hw hh g1
-  obtain ⟨a2, s2⟩ := get_spec .metal t lm hw hm g2
-  have p1 : 0 < lh.align := by rw [a1]; exact align_pos _ t hw
-  have p2 : 0 < lm.align := by rw [a2]; exact align_pos _ t hw
-  have e1 := nextMultipleOf_ok p1 n1
-  have e2 := nextMultipleOf_ok p2 n2
-  rw [s1, a1, roundUp_raw _ t hw] at e1
-  rw [s2, a2, roundUp_raw _ t hw] at e2
-  rw [e1, e2, a1, a2]
 
 theorem checkFrom_ok : ∀ (ts : List Ty) (i : Nat), checkFrom i ts = .ok → ∀ t ∈ ts, checkOne t = .ok none
   | [], _, _, t, ht => by cases ht
@@ -464,70 +263,6 @@ theorem vectorFreeAll_same : ∀ ts : Tys, vectorFreeAll ts = true →
     obtain ⟨a', e', o', g'⟩ := vectorFreeAll_same ts h.2
     refine ⟨by simp only [alignMax, a, a'], fun c => by simp only [endOf, a, s, e'],
       fun c => by simp only [offsets, a, s, o'], by simp only [agreeInAll, g, g', Bool.and_self]⟩
-end
-
-/-- every member is a scalar, vector or enum -/
-def flat : Tys → Bool
-  | .nil => true
-  | .cons (.scalar _) ts => flat ts
-  | .cons (.vec _ _) ts => flat ts
-  | .cons (.enum _) ts => flat ts
-  | .cons _ _ => false
-
-theorem closedAll_of_flat (m : Mode) : ∀ ts : Tys, flat ts = true → closedAll m ts = true
-  | .nil, _ => rfl
-  | .cons (.scalar _) ts, h => by simp only [flat] at h; simp [closedAll, closed, closedAll_of_flat m ts h]
-  | .cons (.vec _ _) ts, h => by simp only [flat] at h; simp [closedAll, closed, closedAll_of_flat m ts h]
-  | .cons (.enum _) ts, h => by simp only [flat] at h; simp [closedAll, closed, closedAll_of_flat m ts h]
-  | .cons (.arr _ _) _, h => by simp [flat] at h
-  | .cons (.struct _) _, h => by simp [flat] at h
-  | .cons (.other _) _, h => by simp [flat] at h
-
-theorem noInner_of_closed (m : Mode) : ∀ t : Ty, closed m t = true → noInnerTailPad m t = true
-  | .scalar _, _ => rfl
-  | .vec _ _, _ => rfl
-  | .enum _, _ => rfl
-  | .other _, _ => rfl
-  | .arr _ _, h => by simpa [closed, noInnerTailPad] using h
-  | .struct _, h => by
-    simp only [closed, Bool.and_eq_true] at h
-    simpa [noInnerTailPad] using h.2
-
-mutual
-/-- a padding-free layout needs no tail padding anywhere -/
-theorem dense_closed (m : Mode) : ∀ t : Ty, wf t = true → size m t = leaf t → closed m t = true
-  | .scalar _, _, _ => rfl
-  | .vec _ _, _, _ => rfl
-  | .enum _, _, _ => rfl
-  | .other _, _, _ => rfl
-  | .arr t n, hw, hd => by
-    simp only [wf, Bool.and_eq_true, decide_eq_true_eq] at hw
-    simp only [size, leaf] at hd
-    have e := Nat.eq_of_mul_eq_mul_left (by omega : 0 < n) hd
-    have l1 := leaf_le_size m t hw.2
-    have r1 := @le_roundUp (size m t) (align m t) (align_pos m t hw.2)
-    simp only [closed]
-    exact dense_closed m t hw.2 (by omega)
-  | .struct ms, hw, hd => by
-    simp only [wf, Bool.and_eq_true] at hw
-    simp only [size, leaf] at hd
-    have l1 := leafAll_le_endOf m ms 0 hw.2
-    have r1 := @le_roundUp (endOf m ms 0) (alignMax m ms) (alignMax_pos m ms)
-    have e : roundUp (endOf m ms 0) (alignMax m ms) = endOf m ms 0 := by omega
-    simp only [closed, Bool.and_eq_true, beq_iff_eq]
-    exact ⟨(roundUp_eq_self_iff (alignMax_pos m ms)).1 e, denseAll_closed m ms 0 hw.2 (by omega)⟩
-theorem denseAll_closed (m : Mode) : ∀ (ts : Tys) (c : Nat), wfAll ts = true →
-    endOf m ts c = c + leafAll ts → closedAll m ts = true
-  | .nil, _, _, _ => rfl
-  | .cons t ts, c, hw, hd => by
-    simp only [wfAll, Bool.and_eq_true] at hw
-    simp only [endOf, leafAll] at hd
-    have s1 := leaf_le_size m t hw.1
-    have r1 := @le_roundUp c (align m t) (align_pos m t hw.1)
-    have e1 := leafAll_le_endOf m ts (roundUp c (align m t) + size m t) hw.2
-    simp only [closedAll, Bool.and_eq_true]
-    exact ⟨dense_closed m t hw.1 (by omega),
-      denseAll_closed m ts (roundUp c (align m t) + size m t) hw.2 (by omega)⟩
 end
 
 mutual
@@ -617,94 +352,702 @@ end
 theorem le_endOf (m : Mode) (ts : Tys) (c : Nat) (h : wfAll ts = true) : c ≤ endOf m ts c := by
   have := leafAll_le_endOf m ts c h; omega
 
+
+theorem addU32_ok {a b c : Nat} (h : addU32 a b = .ok c) : c = a + b := by
+  unfold addU32 at h; split at h
+  · cases h; rfl
+  · cases h
+
 mutual
-/-- `get_type_layout` neither panics nor gives up on a type of the grid whose reference size fits `u32`;
-    its size never exceeds the reference size and its alignment is the reference alignment -/
+/-- `get_type_layout` returns the reference size and alignment of every type of the grid -/
+theorem get_spec (m : Mode) : ∀ (t : Ty) (l : Layout), wf t = true → get m t = .ok l →
+    l.size = size m t ∧ l.align = align m t
+  | .scalar s, l, hw, h => by
+    simp only [wf] at hw
+    rw [get_scalar m s hw] at h; cases h; exact ⟨rfl, rfl⟩
+  | .vec s n, l, hw, h => by
+    simp only [wf, Bool.and_eq_true, decide_eq_true_eq] at hw
+    rw [get_vec m s n hw.1 hw.2] at h; cases h; exact ⟨rfl, rfl⟩
+  | .enum u, l, hw, h => by
+    simp only [wf] at hw
+    rw [get_enum m u hw] at h; cases h; exact ⟨rfl, rfl⟩
+  | .other _, _, hw, _ => by simp [wf] at hw
+  | .arr t n, l, hw, h => by
+    simp only [wf, Bool.and_eq_true, decide_eq_true_eq] at hw
+    simp only [Model.Layout.get] at h
+    split at h
+    · cases h
+    · rename_i l' hl'
+      obtain ⟨hs, ha⟩ := get_spec m t l' hw.2 hl'
+      rw [array_ops_pinned] at h
+      split at h
+      · split at h
+        · rename_i z hz
+          cases h
+          have := mulU32_ok hz
+          refine ⟨?_, ha⟩
+          simp only [size]
+          rw [roundUp_of_mod_zero (align_pos m t hw.2) (size_mod_align m t hw.2), this, hs, Nat.mul_comm]
+        · cases h
+      · cases h
+  | .struct ms, l, hw, h => by
+    simp only [wf, Bool.and_eq_true] at hw
+    simp only [Model.Layout.get] at h
+    split at h
+    · cases h
+    · rename_i l' hl'
+      obtain ⟨hs, ha⟩ := getMembers_spec m ms ⟨structInit.1, structInit.2⟩ l' hw.2 (by decide) hl'
+      have ha' : l'.align = alignMax m ms := by
+        rw [ha]
+        have := alignMax_pos m ms
+        show max 1 (alignMax m ms) = alignMax m ms
+        omega
+      rw [final_ops_pinned] at h
+      split at h
+      · rename_i z hz
+        cases h
+        have := nextMultipleOf_ok (by rw [ha']; exact alignMax_pos m ms) hz
+        simp only [size, align]
+        rw [this, hs, ha']
+        exact ⟨rfl, rfl⟩
+      · cases h
+theorem getMembers_spec (m : Mode) : ∀ (ts : Tys) (acc l : Layout), wfAll ts = true →
+    1 ≤ acc.align → getMembers m ts acc = .ok l →
+    l.size = endOf m ts acc.size ∧ l.align = max acc.align (alignMax m ts)
+  | .nil, acc, l, _, hacc, h => by
+    simp only [getMembers] at h; cases h
+    refine ⟨by simp [endOf], ?_⟩
+    simp only [alignMax]; omega
+  | .cons t ts, acc, l, hw, hacc, h => by
+    simp only [wfAll, Bool.and_eq_true] at hw
+    simp only [getMembers] at h
+    split at h
+    · cases h
+    · rename_i ml hml
+      obtain ⟨hs, ha⟩ := get_spec m t ml hw.1 hml
+      rw [member_ops_pinned] at h
+      split at h
+      · cases h
+      · rename_i acc' hacc'
+        have hpos : 0 < ml.align := by rw [ha]; exact align_pos m t hw.1
+        obtain ⟨e1, e2⟩ := memberStep_ok hpos hacc'
+        obtain ⟨r1, r2⟩ := getMembers_spec m ts acc' l hw.2 (by rw [e2]; omega) h
+        simp only [endOf, alignMax]
+        rw [r1, r2, e1, e2, ha, hs]
+        exact ⟨rfl, by omega⟩
+end
+
+mutual
+/-- `get_type_layout` neither panics nor gives up on a type of the grid whose reference size fits `u32` -/
 theorem get_total (m : Mode) : ∀ t : Ty, wf t = true → size m t ≤ u32Max →
-    ∃ l, get m t = .ok l ∧ l.size ≤ size m t ∧ l.align = align m t
+    get m t = .ok ⟨size m t, align m t⟩
   | .scalar s, hw, _ => by
     simp only [wf] at hw
-    exact ⟨_, get_scalar m s hw, Nat.le_refl _, rfl⟩
+    exact get_scalar m s hw
   | .vec s n, hw, _ => by
     simp only [wf, Bool.and_eq_true, decide_eq_true_eq] at hw
-    exact ⟨_, get_vec m s n hw.1 hw.2, Nat.le_refl _, rfl⟩
+    exact get_vec m s n hw.1 hw.2
   | .enum u, hw, _ => by
     simp only [wf] at hw
-    exact ⟨_, get_enum m u hw, Nat.le_refl _, rfl⟩
+    exact get_enum m u hw
   | .other _, hw, _ => by simp [wf] at hw
   | .arr t n, hw, hb => by
     simp only [wf, Bool.and_eq_true, decide_eq_true_eq] at hw
     simp only [size] at hb
-    have hst : size m t ≤ roundUp (size m t) (align m t) := le_roundUp (align_pos m t hw.2)
+    have hmod := roundUp_of_mod_zero (align_pos m t hw.2) (size_mod_align m t hw.2)
+    rw [hmod] at hb
     have hpos : 0 < size m t := Nat.lt_of_lt_of_le (leaf_pos t hw.2) (leaf_le_size m t hw.2)
-    have h1 : 1 * roundUp (size m t) (align m t) ≤ n * roundUp (size m t) (align m t) :=
-      Nat.mul_le_mul_right _ hw.1
-    have h2 : n * 1 ≤ n * roundUp (size m t) (align m t) := Nat.mul_le_mul_left _ (by omega)
-    obtain ⟨l', g, s', a'⟩ := get_total m t hw.2 (by omega)
-    have h3 : l'.size * n ≤ n * roundUp (size m t) (align m t) := by
-      rw [Nat.mul_comm]; exact Nat.mul_le_mul_left _ (by omega)
-    refine ⟨⟨l'.size * n, l'.align⟩, ?_, by simpa [size] using h3, by simpa [align] using a'⟩
+    have h1 : 1 * size m t ≤ n * size m t := Nat.mul_le_mul_right _ hw.1
+    have h2 : n * 1 ≤ n * size m t := Nat.mul_le_mul_left _ (by omega)
+    have g := get_total m t hw.2 (by omega)
     simp only [Model.Layout.get, g]
     rw [array_ops_pinned]
     have hn : n ≤ u32Max := by omega
-    have hm : l'.size * n ≤ u32Max := by omega
-    simp only [hn, if_true, mulU32, hm]
+    have hm : size m t * n ≤ u32Max := by rw [Nat.mul_comm]; exact hb
+    simp only [hn, if_true, mulU32, size, align, hmod, Nat.mul_comm, hb]
   | .struct ms, hw, hb => by
     simp only [wf, Bool.and_eq_true] at hw
     simp only [size] at hb
     have r := @le_roundUp (endOf m ms 0) (alignMax m ms) (alignMax_pos m ms)
-    obtain ⟨l, g, s', a'⟩ := getMembers_total m ms ⟨structInit.1, structInit.2⟩ 0 hw.2
-      (Nat.le_refl _) (by omega) (by decide)
-    refine ⟨l, ?_, by simp only [size]; omega, ?_⟩
-    · simp only [Model.Layout.get, g]; rw [final_ops_pinned]
-    · simp only [align]; rw [a']
+    have g := getMembers_total m ms ⟨structInit.1, structInit.2⟩ hw.2 (by show endOf m ms 0 ≤ u32Max; omega)
+      (by decide)
+    have ha : max (structInit.2) (alignMax m ms) = alignMax m ms := by
       have := alignMax_pos m ms
       show max 1 (alignMax m ms) = alignMax m ms
       omega
-theorem getMembers_total (m : Mode) : ∀ (ts : Tys) (acc : Layout) (cur : Nat), wfAll ts = true →
-    acc.size ≤ cur → endOf m ts cur ≤ u32Max → 1 ≤ acc.align →
-    ∃ l, getMembers m ts acc = .ok l ∧ l.size ≤ endOf m ts cur ∧ l.align = max acc.align (alignMax m ts)
-  | .nil, acc, cur, _, hc, _, ha => by
-    refine ⟨acc, rfl, by simpa [endOf] using hc, ?_⟩
-    simp only [alignMax]; omega
-  | .cons t ts, acc, cur, hw, hc, hb, ha => by
+    simp only [Model.Layout.get, g]
+    rw [final_ops_pinned]
+    simp only [ha]
+    have e0 : structInit.1 = 0 := rfl
+    rw [e0, nextMultipleOf_succeeds (alignMax_pos m ms) hb]
+    rfl
+theorem getMembers_total (m : Mode) : ∀ (ts : Tys) (acc : Layout), wfAll ts = true →
+    endOf m ts acc.size ≤ u32Max → 1 ≤ acc.align →
+    getMembers m ts acc = .ok ⟨endOf m ts acc.size, max acc.align (alignMax m ts)⟩
+  | .nil, acc, _, _, ha => by
+    simp only [getMembers, endOf, alignMax]
+    have : max acc.align 1 = acc.align := by omega
+    rw [this]
+  | .cons t ts, acc, hw, hb, ha => by
     simp only [wfAll, Bool.and_eq_true] at hw
     simp only [endOf] at hb
-    have e1 := le_endOf m ts (roundUp cur (align m t) + size m t) hw.2
-    have r1 := @le_roundUp cur (align m t) (align_pos m t hw.1)
-    obtain ⟨ml, g, s', a'⟩ := get_total m t hw.1 (by omega)
-    have hpos : 0 < ml.align := by rw [a']; exact align_pos m t hw.1
-    have mono : roundUp acc.size ml.align ≤ roundUp cur (align m t) := by
-      rw [a']; exact roundUp_mono hc
-    have hstep := @memberStep_succeeds acc ml hpos (by omega)
-    obtain ⟨l, g2, s2, a2⟩ := getMembers_total m ts
-      ⟨roundUp acc.size ml.align + ml.size, max acc.align ml.align⟩
-      (roundUp cur (align m t) + size m t) hw.2 (by simp only []; omega) hb (by simp only []; omega)
-    refine ⟨l, ?_, by simpa [endOf] using s2, ?_⟩
-    · simp only [getMembers, g]; rw [member_ops_pinned, hstep]; exact g2
-    · rw [a2]; simp only [alignMax, a']; omega
+    have e1 := le_endOf m ts (roundUp acc.size (align m t) + size m t) hw.2
+    have r1 := @le_roundUp acc.size (align m t) (align_pos m t hw.1)
+    have g := get_total m t hw.1 (by omega)
+    have hstep := @memberStep_succeeds acc ⟨size m t, align m t⟩ (align_pos m t hw.1) (by simp only []; omega)
+    have g2 := getMembers_total m ts
+      ⟨roundUp acc.size (align m t) + size m t, max acc.align (align m t)⟩ hw.2 hb (by simp only []; omega)
+    simp only [getMembers, g]; rw [member_ops_pinned, hstep]
+    simp only [g2, endOf, alignMax, Nat.max_assoc]
 end
 
-/-- validation of a type of the grid whose reference sizes fit `u32` always reaches the comparison -/
+/-- the member loop body of `offsets_match` in the pinned source -/
+def memberOff (lh lm : Layout) (rec : Except Err Bool) (ch cm : Nat) : Except Err Flow :=
+  match nextMultipleOf ch lh.align with
+  | .error e => .error e
+  | .ok oh =>
+    match nextMultipleOf cm lm.align with
+    | .error e => .error e
+    | .ok om =>
+      if oh ≠ om then .ok (.ret false) else
+      match rec with
+      | .error e => .error e
+      | .ok false => .ok (.ret false)
+      | .ok true =>
+        match addU32 oh lh.size with
+        | .error e => .error e
+        | .ok ch' =>
+          match addU32 om lm.size with
+          | .error e => .error e
+          | .ok cm' => .ok (.next ⟨ch', cm', lh, lm⟩)
+
+theorem member_off_pinned (lh lm d1 d2 : Layout) (rec : Except Err Bool) (ch cm : Nat) :
+    runOff (.ok lh) (.ok lm) rec 0 offsetsMemberOps ⟨ch, cm, d1, d2⟩ = memberOff lh lm rec ch cm := by
+  simp only [offsetsMemberOps, runOff, offStep, memberOff]
+  cases nextMultipleOf ch lh.align with
+  | error e => rfl
+  | ok oh =>
+    simp only []
+    cases nextMultipleOf cm lm.align with
+    | error e => rfl
+    | ok om =>
+      simp only []
+      by_cases hne : oh = om
+      · subst hne
+        simp only [ne_eq, not_true_eq_false, if_false]
+        cases rec with
+        | error e => rfl
+        | ok b =>
+          cases b with
+          | false => rfl
+          | true =>
+            simp only []
+            cases addU32 oh lh.size with
+            | error e => rfl
+            | ok ch' =>
+              simp only []
+              cases addU32 oh lm.size with
+              | error e => rfl
+              | ok cm' => rfl
+      · simp only [ne_eq, hne, not_false_eq_true, if_true]
+
+/-- the array arm of `offsets_match` in the pinned source -/
+def arrayOff (lh lm : Layout) (rec : Except Err Bool) (n : Nat) : Except Err Bool :=
+  if n = 0 then .ok true else
+  if n > 1 then
+    match nextMultipleOf lh.size lh.align with
+    | .error e => .error e
+    | .ok a =>
+      match nextMultipleOf lm.size lm.align with
+      | .error e => .error e
+      | .ok b => if a ≠ b then .ok false else rec
+  else rec
+
+theorem array_off_pinned (lh lm : Layout) (rec : Except Err Bool) (n : Nat) (s0 : OffSt) (hn : n ≠ 0) :
+    runOff (.ok lh) (.ok lm) rec n offsetsArrayOps s0 =
+      match arrayOff lh lm rec n with
+      | .ok b => .ok (.ret b)
+      | .error e => .error e := by
+  simp only [offsetsArrayOps, runOff, offStep, arrayOff, hn, if_false]
+  by_cases h1 : n > 1
+  · simp only [h1, if_true]
+    cases nextMultipleOf lh.size lh.align with
+    | error e => rfl
+    | ok a =>
+      simp only []
+      cases nextMultipleOf lm.size lm.align with
+      | error e => rfl
+      | ok b =>
+        simp only []
+        by_cases hne : a = b
+        · simp only [hne, ne_eq, not_true_eq_false, if_false]
+          cases rec <;> rfl
+        · simp only [ne_eq, hne, not_false_eq_true, if_true]
+  · simp only [h1, if_false]
+    cases rec <;> rfl
+
+theorem array_off_zero (gh gm : Except Err Layout) (rec : Except Err Bool) (s0 : OffSt) :
+    runOff gh gm rec 0 offsetsArrayOps s0 = .ok (.ret true) := by
+  simp only [offsetsArrayOps, runOff, offStep, if_true]
+
+theorem member_off_errH (e : Err) (gm : Except Err Layout) (rec : Except Err Bool) (s0 : OffSt) :
+    runOff (.error e) gm rec 0 offsetsMemberOps s0 = .error e := by
+  simp only [offsetsMemberOps, runOff, offStep]
+
+theorem member_off_errM (lh : Layout) (e : Err) (rec : Except Err Bool) (s0 : OffSt) :
+    runOff (.ok lh) (.error e) rec 0 offsetsMemberOps s0 = .error e := by
+  simp only [offsetsMemberOps, runOff, offStep]
+
+theorem array_off_errH (e : Err) (gm : Except Err Layout) (rec : Except Err Bool) (n : Nat) (s0 : OffSt)
+    (hn : n ≠ 0) : runOff (.error e) gm rec n offsetsArrayOps s0 = .error e := by
+  simp only [offsetsArrayOps, runOff, offStep, hn, if_false]
+
+theorem array_off_errM (lh : Layout) (e : Err) (rec : Except Err Bool) (n : Nat) (s0 : OffSt)
+    (hn : n ≠ 0) : runOff (.ok lh) (.error e) rec n offsetsArrayOps s0 = .error e := by
+  simp only [offsetsArrayOps, runOff, offStep, hn, if_false]
+
+theorem memberOff_ret {lh lm : Layout} {rec : Except Err Bool} {ch cm : Nat} {b : Bool}
+    (h : memberOff lh lm rec ch cm = .ok (.ret b)) : b = false := by
+  unfold memberOff at h
+  split at h
+  · cases h
+  · split at h
+    · cases h
+    · split at h
+      · cases h; rfl
+      · split at h
+        · cases h
+        · cases h; rfl
+        · split at h
+          · cases h
+          · split at h <;> cases h
+
+theorem memberOff_next {lh lm : Layout} {rec : Except Err Bool} {ch cm : Nat} {s : OffSt}
+    (h : memberOff lh lm rec ch cm = .ok (.next s)) :
+    ∃ o, nextMultipleOf ch lh.align = .ok o ∧ nextMultipleOf cm lm.align = .ok o ∧
+      rec = .ok true ∧ addU32 o lh.size = .ok s.ch ∧ addU32 o lm.size = .ok s.cm := by
+  unfold memberOff at h
+  split at h
+  · cases h
+  · rename_i oh hoh
+    split at h
+    · cases h
+    · rename_i om hom
+      split at h
+      · cases h
+      · rename_i hne
+        have heq : oh = om := Decidable.of_not_not hne
+        subst heq
+        split at h
+        · cases h
+        · cases h
+        · rename_i hrec
+          split at h
+          · cases h
+          · rename_i ch' hch'
+            split at h
+            · cases h
+            · rename_i cm' hcm'
+              cases h
+              exact ⟨oh, hoh, hom, rfl, hch', hcm'⟩
+
+theorem arrayOff_true {lh lm : Layout} {rec : Except Err Bool} {n : Nat} (hn : n ≠ 0)
+    (h : arrayOff lh lm rec n = .ok true) :
+    rec = .ok true ∧ (n ≤ 1 ∨ ∃ a, nextMultipleOf lh.size lh.align = .ok a ∧
+      nextMultipleOf lm.size lm.align = .ok a) := by
+  simp only [arrayOff, hn, if_false] at h
+  split at h
+  · split at h
+    · cases h
+    · rename_i a ha
+      split at h
+      · cases h
+      · rename_i b hb
+        split at h
+        · cases h
+        · rename_i hne
+          have : a = b := Decidable.of_not_not hne
+          subst this
+          exact ⟨h, Or.inr ⟨a, ha, hb⟩⟩
+  · exact ⟨h, Or.inl (by omega)⟩
+
+mutual
+theorem offsetsMatch_sound : ∀ t : Ty, wf t = true → offsetsMatch t = .ok true → agreeIn t = true
+  | .scalar _, _, _ => rfl
+  | .vec _ _, _, _ => rfl
+  | .enum _, _, _ => rfl
+  | .other _, _, _ => rfl
+  | .struct ms, hw, h => by
+    simp only [wf, Bool.and_eq_true] at hw
+    simp only [offsetsMatch] at h
+    obtain ⟨o, g⟩ := offsetsMembers_sound ms 0 0 hw.2 h
+    simp only [agreeIn, Bool.and_eq_true, beq_iff_eq]
+    exact ⟨o, g⟩
+  | .arr t n, hw, h => by
+    simp only [wf, Bool.and_eq_true, decide_eq_true_eq] at hw
+    simp only [agreeIn, Bool.or_eq_true, Bool.and_eq_true, beq_iff_eq, decide_eq_true_eq]
+    have hn : n ≠ 0 := by omega
+    right
+    simp only [offsetsMatch] at h
+    cases gh : Model.Layout.get .hlsl t with
+    | error e => rw [gh, array_off_errH e _ _ n _ hn] at h; cases h
+    | ok lh =>
+      cases gm : Model.Layout.get .metal t with
+      | error e => rw [gh, gm, array_off_errM lh e _ n _ hn] at h; cases h
+      | ok lm =>
+        rw [gh, gm, array_off_pinned lh lm _ n _ hn] at h
+        obtain ⟨sh, ah⟩ := get_spec .hlsl t lh hw.2 gh
+        obtain ⟨sm, am⟩ := get_spec .metal t lm hw.2 gm
+        cases hao : arrayOff lh lm (offsetsMatch t) n with
+        | error e => rw [hao] at h; cases h
+        | ok b =>
+          rw [hao] at h
+          cases h
+          obtain ⟨hrec, hs⟩ := arrayOff_true hn hao
+          refine ⟨?_, offsetsMatch_sound t hw.2 hrec⟩
+          rcases hs with hs | ⟨a, ha, hb⟩
+          · exact Or.inl hs
+          · right
+            have ea := nextMultipleOf_ok (by rw [ah]; exact align_pos _ t hw.2) ha
+            have eb := nextMultipleOf_ok (by rw [am]; exact align_pos _ t hw.2) hb
+            simp only [stride]
+            rw [← sh, ← sm, ← ah, ← am, ← ea, ← eb]
+theorem offsetsMembers_sound : ∀ (ts : Tys) (ch cm : Nat), wfAll ts = true →
+    offsetsMembers ts ch cm = .ok true →
+    offsets .hlsl ts ch = offsets .metal ts cm ∧ agreeInAll ts = true
+  | .nil, _, _, _, _ => ⟨rfl, rfl⟩
+  | .cons t ts, ch, cm, hw, h => by
+    simp only [wfAll, Bool.and_eq_true] at hw
+    simp only [offsetsMembers] at h
+    cases gh : Model.Layout.get .hlsl t with
+    | error e => rw [gh, member_off_errH] at h; cases h
+    | ok lh =>
+      cases gm : Model.Layout.get .metal t with
+      | error e => rw [gh, gm, member_off_errM] at h; cases h
+      | ok lm =>
+        rw [gh, gm, member_off_pinned] at h
+        obtain ⟨sh, ah⟩ := get_spec .hlsl t lh hw.1 gh
+        obtain ⟨sm, am⟩ := get_spec .metal t lm hw.1 gm
+        cases hmo : memberOff lh lm (offsetsMatch t) ch cm with
+        | error e => rw [hmo] at h; cases h
+        | ok fl =>
+          rw [hmo] at h
+          cases fl with
+          | ret b =>
+            have := memberOff_ret hmo
+            subst this
+            cases h
+          | next s =>
+            simp only [] at h
+            obtain ⟨o, hoh, hom, hrec, hch, hcm⟩ := memberOff_next hmo
+            have eh := nextMultipleOf_ok (by rw [ah]; exact align_pos _ t hw.1) hoh
+            have em := nextMultipleOf_ok (by rw [am]; exact align_pos _ t hw.1) hom
+            have c1 := addU32_ok hch
+            have c2 := addU32_ok hcm
+            obtain ⟨og, g⟩ := offsetsMembers_sound ts s.ch s.cm hw.2 h
+            simp only [offsets, agreeInAll, Bool.and_eq_true]
+            rw [← ah, ← am, ← eh, ← sh, ← sm, ← c1]
+            rw [← em, ← c2, og]
+            exact ⟨rfl, offsetsMatch_sound t hw.1 hrec, g⟩
+end
+
+theorem memberOff_succeeds {lh lm : Layout} {rec : Except Err Bool} {ch cm o a b : Nat}
+    (h1 : nextMultipleOf ch lh.align = .ok o) (h2 : nextMultipleOf cm lm.align = .ok o)
+    (h3 : rec = .ok true) (h4 : addU32 o lh.size = .ok a) (h5 : addU32 o lm.size = .ok b) :
+    memberOff lh lm rec ch cm = .ok (.next ⟨a, b, lh, lm⟩) := by
+  unfold memberOff
+  simp only [h1, h2, h3, h4, h5, ne_eq, not_true_eq_false, if_false]
+
+theorem addU32_succeeds {a b : Nat} (h : a + b ≤ u32Max) : addU32 a b = .ok (a + b) := by
+  unfold addU32; simp only [h, if_true]
+
+theorem size_pos (m : Mode) (t : Ty) (hw : wf t = true) : 0 < size m t :=
+  Nat.lt_of_lt_of_le (leaf_pos t hw) (leaf_le_size m t hw)
+
+mutual
+/-- `offsets_match` accepts whenever the two reference layouts place every field identically -/
+theorem offsetsMatch_complete : ∀ t : Ty, wf t = true → size .hlsl t ≤ u32Max → size .metal t ≤ u32Max →
+    agreeIn t = true → offsetsMatch t = .ok true
+  | .scalar _, _, _, _, _ => rfl
+  | .vec _ _, _, _, _, _ => rfl
+  | .enum _, _, _, _, _ => rfl
+  | .other _, _, _, _, _ => rfl
+  | .struct ms, hw, bh, bm, ha => by
+    simp only [wf, Bool.and_eq_true] at hw
+    simp only [agreeIn, Bool.and_eq_true, beq_iff_eq] at ha
+    simp only [size] at bh bm
+    have rh := @le_roundUp (endOf .hlsl ms 0) (alignMax .hlsl ms) (alignMax_pos _ ms)
+    have rm := @le_roundUp (endOf .metal ms 0) (alignMax .metal ms) (alignMax_pos _ ms)
+    simp only [offsetsMatch]
+    exact offsetsMembers_complete ms 0 0 hw.2 (by omega) (by omega) ha.1 ha.2
+  | .arr t n, hw, bh, bm, ha => by
+    simp only [wf, Bool.and_eq_true, decide_eq_true_eq] at hw
+    simp only [agreeIn, Bool.or_eq_true, Bool.and_eq_true, beq_iff_eq, decide_eq_true_eq] at ha
+    have hn : n ≠ 0 := by omega
+    rcases ha with h0 | ⟨hs, hin⟩
+    · exact absurd h0 hn
+    · simp only [size] at bh bm
+      have mh := roundUp_of_mod_zero (align_pos .hlsl t hw.2) (size_mod_align .hlsl t hw.2)
+      have mm := roundUp_of_mod_zero (align_pos .metal t hw.2) (size_mod_align .metal t hw.2)
+      rw [mh] at bh
+      rw [mm] at bm
+      have h1 : 1 * size .hlsl t ≤ n * size .hlsl t := Nat.mul_le_mul_right _ hw.1
+      have h2 : 1 * size .metal t ≤ n * size .metal t := Nat.mul_le_mul_right _ hw.1
+      have gh := get_total .hlsl t hw.2 (by omega)
+      have gm := get_total .metal t hw.2 (by omega)
+      have hrec := offsetsMatch_complete t hw.2 (by omega) (by omega) hin
+      simp only [offsetsMatch, gh, gm]
+      rw [array_off_pinned _ _ _ n _ hn]
+      have : arrayOff ⟨size .hlsl t, align .hlsl t⟩ ⟨size .metal t, align .metal t⟩ (offsetsMatch t) n
+          = .ok true := by
+        simp only [arrayOff, hn, if_false, hrec]
+        by_cases hgt : n > 1
+        · simp only [hgt, if_true]
+          have hst : stride .hlsl t = stride .metal t := by
+            rcases hs with hs | hs
+            · omega
+            · exact hs
+          simp only [stride, mh, mm] at hst
+          rw [nextMultipleOf_succeeds (align_pos _ t hw.2) (by rw [mh]; omega),
+            nextMultipleOf_succeeds (align_pos _ t hw.2) (by rw [mm]; omega)]
+          rw [mh, mm]
+          simp only [hst, ne_eq, not_true_eq_false, if_false]
+        · simp only [hgt, if_false]
+      rw [this]
+theorem offsetsMembers_complete : ∀ (ts : Tys) (ch cm : Nat), wfAll ts = true →
+    endOf .hlsl ts ch ≤ u32Max → endOf .metal ts cm ≤ u32Max →
+    offsets .hlsl ts ch = offsets .metal ts cm → agreeInAll ts = true →
+    offsetsMembers ts ch cm = .ok true
+  | .nil, _, _, _, _, _, _, _ => rfl
+  | .cons t ts, ch, cm, hw, bh, bm, ho, ha => by
+    simp only [wfAll, Bool.and_eq_true] at hw
+    simp only [endOf] at bh bm
+    simp only [offsets, List.cons.injEq] at ho
+    simp only [agreeInAll, Bool.and_eq_true] at ha
+    have eh := le_endOf .hlsl ts (roundUp ch (align .hlsl t) + size .hlsl t) hw.2
+    have em := le_endOf .metal ts (roundUp cm (align .metal t) + size .metal t) hw.2
+    have gh := get_total .hlsl t hw.1 (by omega)
+    have gm := get_total .metal t hw.1 (by omega)
+    have hrec := offsetsMatch_complete t hw.1 (by omega) (by omega) ha.1
+    have n1 := @nextMultipleOf_succeeds ch (align .hlsl t) (align_pos _ t hw.1) (by omega)
+    have n2 := @nextMultipleOf_succeeds cm (align .metal t) (align_pos _ t hw.1) (by omega)
+    rw [← ho.1] at n2
+    have a1 := @addU32_succeeds (roundUp ch (align .hlsl t)) (size .hlsl t) (by omega)
+    have a2 := @addU32_succeeds (roundUp ch (align .hlsl t)) (size .metal t) (by rw [ho.1]; omega)
+    have hm := @memberOff_succeeds ⟨size .hlsl t, align .hlsl t⟩ ⟨size .metal t, align .metal t⟩
+      (offsetsMatch t) ch cm _ _ _ n1 n2 hrec a1 a2
+    simp only [offsetsMembers, gh, gm]
+    rw [member_off_pinned, hm]
+    simp only []
+    have ih := offsetsMembers_complete ts _ _ hw.2 bh bm ho.2 ha.2
+    rw [← ho.1] at ih
+    exact ih
+end
+
+theorem memberOff_eval {lh lm : Layout} {b : Bool} {ch cm oh om x y : Nat}
+    (h1 : nextMultipleOf ch lh.align = .ok oh) (h2 : nextMultipleOf cm lm.align = .ok om)
+    (h4 : addU32 oh lh.size = .ok x) (h5 : addU32 om lm.size = .ok y) :
+    memberOff lh lm (.ok b) ch cm =
+      if oh ≠ om then .ok (.ret false) else if b then .ok (.next ⟨x, y, lh, lm⟩) else .ok (.ret false) := by
+  unfold memberOff
+  simp only [h1, h2]
+  by_cases hne : oh = om
+  · simp only [hne, ne_eq, not_true_eq_false, if_false]
+    cases b
+    · simp
+    · subst hne; simp only [h4, h5, if_true]
+  · simp only [ne_eq, hne, not_false_eq_true, if_true]
+
+mutual
+/-- `offsets_match` neither panics nor returns `None` on a type of the grid whose sizes fit `u32` -/
+theorem offsetsMatch_total : ∀ t : Ty, wf t = true → size .hlsl t ≤ u32Max → size .metal t ≤ u32Max →
+    ∃ b, offsetsMatch t = .ok b
+  | .scalar _, _, _, _ => ⟨true, rfl⟩
+  | .vec _ _, _, _, _ => ⟨true, rfl⟩
+  | .enum _, _, _, _ => ⟨true, rfl⟩
+  | .other _, _, _, _ => ⟨true, rfl⟩
+  | .struct ms, hw, bh, bm => by
+    simp only [wf, Bool.and_eq_true] at hw
+    simp only [size] at bh bm
+    have rh := @le_roundUp (endOf .hlsl ms 0) (alignMax .hlsl ms) (alignMax_pos _ ms)
+    have rm := @le_roundUp (endOf .metal ms 0) (alignMax .metal ms) (alignMax_pos _ ms)
+    simp only [offsetsMatch]
+    exact offsetsMembers_total ms 0 0 hw.2 (by omega) (by omega)
+  | .arr t n, hw, bh, bm => by
+    simp only [wf, Bool.and_eq_true, decide_eq_true_eq] at hw
+    have hn : n ≠ 0 := by omega
+    simp only [size] at bh bm
+    have mh := roundUp_of_mod_zero (align_pos .hlsl t hw.2) (size_mod_align .hlsl t hw.2)
+    have mm := roundUp_of_mod_zero (align_pos .metal t hw.2) (size_mod_align .metal t hw.2)
+    rw [mh] at bh
+    rw [mm] at bm
+    have h1 : 1 * size .hlsl t ≤ n * size .hlsl t := Nat.mul_le_mul_right _ hw.1
+    have h2 : 1 * size .metal t ≤ n * size .metal t := Nat.mul_le_mul_right _ hw.1
+    have gh := get_total .hlsl t hw.2 (by omega)
+    have gm := get_total .metal t hw.2 (by omega)
+    obtain ⟨b, hrec⟩ := offsetsMatch_total t hw.2 (by omega) (by omega)
+    simp only [offsetsMatch, gh, gm]
+    rw [array_off_pinned _ _ _ n _ hn]
+    have : ∃ c, arrayOff ⟨size .hlsl t, align .hlsl t⟩ ⟨size .metal t, align .metal t⟩ (offsetsMatch t) n
+        = .ok c := by
+      simp only [arrayOff, hn, if_false, hrec]
+      by_cases hgt : n > 1
+      · simp only [hgt, if_true]
+        rw [nextMultipleOf_succeeds (align_pos _ t hw.2) (by rw [mh]; omega),
+          nextMultipleOf_succeeds (align_pos _ t hw.2) (by rw [mm]; omega)]
+        simp only []
+        split <;> exact ⟨_, rfl⟩
+      · simp only [hgt, if_false]; exact ⟨_, rfl⟩
+    obtain ⟨c, hc⟩ := this
+    rw [hc]; exact ⟨c, rfl⟩
+theorem offsetsMembers_total : ∀ (ts : Tys) (ch cm : Nat), wfAll ts = true →
+    endOf .hlsl ts ch ≤ u32Max → endOf .metal ts cm ≤ u32Max → ∃ b, offsetsMembers ts ch cm = .ok b
+  | .nil, _, _, _, _, _ => ⟨true, rfl⟩
+  | .cons t ts, ch, cm, hw, bh, bm => by
+    simp only [wfAll, Bool.and_eq_true] at hw
+    simp only [endOf] at bh bm
+    have eh := le_endOf .hlsl ts (roundUp ch (align .hlsl t) + size .hlsl t) hw.2
+    have em := le_endOf .metal ts (roundUp cm (align .metal t) + size .metal t) hw.2
+    have gh := get_total .hlsl t hw.1 (by omega)
+    have gm := get_total .metal t hw.1 (by omega)
+    obtain ⟨b, hrec⟩ := offsetsMatch_total t hw.1 (by omega) (by omega)
+    have n1 := @nextMultipleOf_succeeds ch (align .hlsl t) (align_pos _ t hw.1) (by omega)
+    have n2 := @nextMultipleOf_succeeds cm (align .metal t) (align_pos _ t hw.1) (by omega)
+    have a1 := @addU32_succeeds (roundUp ch (align .hlsl t)) (size .hlsl t) (by omega)
+    have a2 := @addU32_succeeds (roundUp cm (align .metal t)) (size .metal t) (by omega)
+    have hm := @memberOff_eval ⟨size .hlsl t, align .hlsl t⟩ ⟨size .metal t, align .metal t⟩ b
+      ch cm _ _ _ _ n1 n2 a1 a2
+    simp only [offsetsMembers, gh, gm]
+    rw [member_off_pinned, hrec, hm]
+    by_cases hne : roundUp ch (align .hlsl t) = roundUp cm (align .metal t)
+    · cases b
+      · simp only [hne, ne_eq, not_true_eq_false, if_false, Bool.false_eq_true]
+        exact ⟨false, rfl⟩
+      · simp only [hne, ne_eq, not_true_eq_false, if_false, if_true]
+        exact offsetsMembers_total ts _ _ hw.2 (by rw [hne] at bh; exact bh) bm
+    · simp only [ne_eq, hne, not_false_eq_true, if_true]
+      exact ⟨false, rfl⟩
+end
+
+/-! ### `check_layout`'s loop body -/
+
+/-- what `checkOne` computes when it does not fail -/
+theorem checkOne_ok {t : Ty} {r : Option (Layout × Layout)} (h : checkOne t = .ok r) :
+    ∃ lh lm zh zm same, get .hlsl t = .ok lh ∧ get .metal t = .ok lm ∧
+      nextMultipleOf lh.size lh.align = .ok zh ∧ nextMultipleOf lm.size lm.align = .ok zm ∧
+      offsetsMatch t = .ok same ∧
+      r = if zh ≠ zm ∨ same = false then some (⟨zh, lh.align⟩, ⟨zm, lm.align⟩) else none := by
+  unfold checkOne at h
+  split at h
+  · cases h
+  · rename_i lh hlh
+    split at h
+    · cases h
+    · rename_i lm hlm
+      rw [top_ops_pinned, top_ops_pinned] at h
+      cases hzh : nextMultipleOf lh.size lh.align with
+      | error e => rw [hzh] at h; cases h
+      | ok zh =>
+        cases hzm : nextMultipleOf lm.size lm.align with
+        | error e => rw [hzh, hzm] at h; cases h
+        | ok zm =>
+          rw [hzh, hzm] at h
+          have hom : hasOffsetsMatch = true := rfl
+          simp only [hom, if_true] at h
+          cases hsame : offsetsMatch t with
+          | error e => rw [hsame] at h; cases h
+          | ok same =>
+            rw [hsame] at h
+            refine ⟨lh, lm, zh, zm, same, hlh, hlm, hzh, hzm, rfl, ?_⟩
+            simp only [differs, checkCompare, Bool.or_eq_true, bne_iff_ne, Bool.not_eq_true'] at h
+            by_cases hc : zh ≠ zm ∨ same = false
+            · simp only [hc, if_true] at h ⊢; cases h; rfl
+            · simp only [hc, if_false] at h ⊢; cases h; rfl
+
+/-- **the loop body decides exactly `Agree`, and on rejection reports the reference layouts** -/
+theorem checkOne_spec {t : Ty} {r : Option (Layout × Layout)} (hw : wf t = true)
+    (h : checkOne t = .ok r) :
+    (r = none → Agree t) ∧
+    (∀ lh lm, r = some (lh, lm) →
+      lh = ⟨size .hlsl t, align .hlsl t⟩ ∧ lm = ⟨size .metal t, align .metal t⟩) := by
+  obtain ⟨lh, lm, zh, zm, same, g1, g2, n1, n2, hs, rfl⟩ := checkOne_ok h
+  obtain ⟨s1, a1⟩ := get_spec .hlsl t lh hw g1
+  obtain ⟨s2, a2⟩ := get_spec .metal t lm hw g2
+  have p1 : 0 < lh.align := by rw [a1]; exact align_pos _ t hw
+  have p2 : 0 < lm.align := by rw [a2]; exact align_pos _ t hw
+  have e1 := nextMultipleOf_ok p1 n1
+  have e2 := nextMultipleOf_ok p2 n2
+  rw [s1, a1, roundUp_of_mod_zero (align_pos _ t hw) (size_mod_align _ t hw)] at e1
+  rw [s2, a2, roundUp_of_mod_zero (align_pos _ t hw) (size_mod_align _ t hw)] at e2
+  constructor
+  · intro hr
+    split at hr
+    · cases hr
+    · rename_i hc
+      have hz : zh = zm := by
+        apply Decidable.of_not_not; intro hne; exact hc (Or.inl hne)
+      have hsame : same = true := by
+        cases same
+        · exact absurd (Or.inr rfl) hc
+        · rfl
+      subst hsame
+      exact ⟨by rw [← e1, ← e2, hz], offsetsMatch_sound t hw hs⟩
+  · intro lh' lm' hr
+    split at hr
+    · cases hr; rw [e1, e2, a1, a2]; exact ⟨rfl, rfl⟩
+    · cases hr
+
+/-- no panic, no "unknown size" on the grid -/
 theorem checkOne_total (t : Ty) (hw : wf t = true) (hh : size .hlsl t ≤ u32Max)
     (hm : size .metal t ≤ u32Max) : ∃ r, checkOne t = .ok r := by
-  obtain ⟨lh, g1, s1, a1⟩ := get_total .hlsl t hw hh
-  obtain ⟨lm, g2, s2, a2⟩ := get_total .metal t hw hm
+  have g1 := get_total .hlsl t hw hh
+  have g2 := get_total .metal t hw hm
   have p1 := align_pos .hlsl t hw
   have p2 := align_pos .metal t hw
-  have b1 : roundUp lh.size lh.align ≤ u32Max := by
-    have := @roundUp_mono _ _ (align .hlsl t) s1
-    rw [roundUp_of_mod_zero p1 (size_mod_align _ t hw)] at this
-    rw [a1]; omega
-  have b2 : roundUp lm.size lm.align ≤ u32Max := by
-    have := @roundUp_mono _ _ (align .metal t) s2
-    rw [roundUp_of_mod_zero p2 (size_mod_align _ t hw)] at this
-    rw [a2]; omega
+  have m1 := roundUp_of_mod_zero p1 (size_mod_align _ t hw)
+  have m2 := roundUp_of_mod_zero p2 (size_mod_align _ t hw)
+  obtain ⟨b, hb⟩ := offsetsMatch_total t hw hh hm
   unfold checkOne
   simp only [g1, g2]
-  rw [top_ops_pinned, top_ops_pinned, nextMultipleOf_succeeds (by rw [a1]; exact p1) b1,
-    nextMultipleOf_succeeds (by rw [a2]; exact p2) b2]
-  simp only []
+  rw [top_ops_pinned, top_ops_pinned, nextMultipleOf_succeeds p1 (by rw [m1]; exact hh),
+    nextMultipleOf_succeeds p2 (by rw [m2]; exact hm)]
+  have hom : hasOffsetsMatch = true := rfl
+  simp only [hom, if_true, hb]
   split <;> exact ⟨_, rfl⟩
+
+/-- **no false rejection**: a type whose reference layouts agree is accepted -/
+theorem checkOne_complete (t : Ty) (hw : wf t = true) (hh : size .hlsl t ≤ u32Max)
+    (hm : size .metal t ≤ u32Max) (ha : Agree t) : checkOne t = .ok none := by
+  obtain ⟨r, hr⟩ := checkOne_total t hw hh hm
+  obtain ⟨lh, lm, zh, zm, same, g1, g2, n1, n2, hs, rfl⟩ := checkOne_ok hr
+  have hc := offsetsMatch_complete t hw hh hm ha.2
+  rw [hc] at hs; cases hs
+  obtain ⟨s1, a1⟩ := get_spec .hlsl t lh hw g1
+  obtain ⟨s2, a2⟩ := get_spec .metal t lm hw g2
+  have e1 := nextMultipleOf_ok (by rw [a1]; exact align_pos _ t hw) n1
+  have e2 := nextMultipleOf_ok (by rw [a2]; exact align_pos _ t hw) n2
+  rw [s1, a1, roundUp_of_mod_zero (align_pos _ t hw) (size_mod_align _ t hw)] at e1
+  rw [s2, a2, roundUp_of_mod_zero (align_pos _ t hw) (size_mod_align _ t hw)] at e2
+  rw [hr]
+  have : ¬ (zh ≠ zm ∨ true = false) := by
+    rw [e1, e2, ha.1]; simp
+  simp only [this, if_false]
+
+theorem checkFrom_mismatch : ∀ (ts : List Ty) (i j : Nat) (lh lm : Layout),
+    checkFrom i ts = .mismatch j lh lm →
+    ∃ t, ts[j - i]? = some t ∧ i ≤ j ∧ checkOne t = .ok (some (lh, lm))
+  | [], _, _, _, _, h => by simp [checkFrom] at h
+  | t :: ts, i, j, lh, lm, h => by
+    unfold checkFrom at h
+    split at h
+    · cases h
+    · cases h
+    · rename_i a b hc
+      cases h
+      exact ⟨t, by simp, Nat.le_refl _, hc⟩
+    · obtain ⟨u, hu, hle, hc⟩ := checkFrom_mismatch ts (i + 1) j lh lm h
+      refine ⟨u, ?_, by omega, hc⟩
+      have : j - i = (j - (i + 1)) + 1 := by omega
+      rw [this]; simpa using hu
 
 end RsslVerif.Lemmas.Layout
